@@ -15,13 +15,14 @@ def prefetch():
         list(ex.map(lambda c: factsmod.extract(c), EXTRA_CONFIGS))
 
 
-def extra(pid, rule_names):
+def extra(pid, rule_names, base_clean=True):
     res = []
     prefetch()
     import rules_witness as RW
     if any(pid in ps for ps in RW.WITNESS_PROPS.values()):
         res.append(RW.rule_witness(pid))
-    if not os.environ.get("VERIF_NO_SELFTEST") and not os.environ.get("VERIF_REPO"):
+    # the self-test compares patched copies of the current tree with the tree itself: meaningless when the tree already violates
+    if base_clean and not os.environ.get("VERIF_NO_SELFTEST") and not os.environ.get("VERIF_REPO"):
         import selftest
         res.append(selftest.rule_selftest(pid))
     for cfg in EXTRA_CONFIGS:
